@@ -308,3 +308,7 @@ def run(rep: Report, prog: Program, tier: str) -> None:
                                 f"rewound the stream's expected sequence number", construct="receiver: duplicate FORWARD-TSN"))
     if n_cases < 20 or n_recv < 60:
         raise AnalysisError("evaluation families are smaller than expected")
+
+    # ---------------- C06-POLICY (rules/C13life.py): per-channel reliability parameters at the hand-over to _send()
+    from .C13life import run_policy
+    run_policy(rep, prog, PROP, "C06-POLICY")
